@@ -101,30 +101,76 @@ func (pe *PodEvictor) TotalEvicted() int {
 
 // NodeLimitExceeded checks if the number of evictions for a node was exceeded
 func (pe *PodEvictor) NodeLimitExceeded(nodeName string) bool {
+	pe.lock.RLock()
+	defer pe.lock.RUnlock()
+	return pe.nodeLimitExceededNoLock(nodeName)
+}
+
+func (pe *PodEvictor) nodeLimitExceededNoLock(nodeName string) bool {
 	if pe.maxPodsToEvictPerNode != nil {
-		return pe.nodepodCount[nodeName] == *pe.maxPodsToEvictPerNode
+		return pe.nodepodCount[nodeName] >= *pe.maxPodsToEvictPerNode
 	}
 	return false
 }
 
 func (pe *PodEvictor) NamespaceLimitExceeded(namespace string) bool {
+	pe.lock.RLock()
+	defer pe.lock.RUnlock()
+	return pe.namespaceLimitExceededNoLock(namespace)
+}
+
+func (pe *PodEvictor) namespaceLimitExceededNoLock(namespace string) bool {
 	if pe.maxPodsToEvictPerNamespace != nil {
-		return pe.namespacePodCount[namespace] == *pe.maxPodsToEvictPerNamespace
+		return pe.namespacePodCount[namespace] >= *pe.maxPodsToEvictPerNamespace
 	}
 	return false
+}
+
+// checkLimitsAndReserve checks the limits and, if reserve is set and no limit is reached, counts the eviction
+// right away in the same critical section, so that concurrent callers cannot all pass the check on the same
+// counters. The caller gives the slot back with release when the eviction request fails.
+func (pe *PodEvictor) checkLimitsAndReserve(pod *corev1.Pod, reserve bool) (nodeLimitExceeded, namespaceLimitExceeded bool) {
+	pe.lock.Lock()
+	defer pe.lock.Unlock()
+	if pe.nodeLimitExceededNoLock(pod.Spec.NodeName) {
+		return true, false
+	}
+	if pe.namespaceLimitExceededNoLock(pod.Namespace) {
+		return false, true
+	}
+	if reserve {
+		if pod.Spec.NodeName != "" {
+			pe.nodepodCount[pod.Spec.NodeName]++
+		}
+		pe.namespacePodCount[pod.Namespace]++
+		pe.totalCount++
+	}
+	return false, false
+}
+
+func (pe *PodEvictor) release(pod *corev1.Pod) {
+	pe.lock.Lock()
+	defer pe.lock.Unlock()
+	if pod.Spec.NodeName != "" {
+		pe.nodepodCount[pod.Spec.NodeName]--
+	}
+	pe.namespacePodCount[pod.Namespace]--
+	pe.totalCount--
 }
 
 func (pe *PodEvictor) Evict(ctx context.Context, pod *corev1.Pod, opts framework.EvictOptions) bool {
 	framework.FillEvictOptionsFromContext(ctx, &opts)
 
 	nodeName := pod.Spec.NodeName
-	if pe.NodeLimitExceeded(nodeName) {
+	// in dry run mode nothing is counted; otherwise the eviction is counted before the request is sent
+	nodeLimitExceeded, namespaceLimitExceeded := pe.checkLimitsAndReserve(pod, !pe.dryRun)
+	if nodeLimitExceeded {
 		metrics.PodsEvicted.With(map[string]string{"result": "maximum number of pods per node reached", "strategy": opts.PluginName, "namespace": pod.Namespace, "node": nodeName}).Inc()
 		klog.ErrorS(fmt.Errorf("maximum number of evicted pods per node reached"), "Error evicting pod", "limit", *pe.maxPodsToEvictPerNode, "node", nodeName)
 		return false
 	}
 
-	if pe.NamespaceLimitExceeded(pod.Namespace) {
+	if namespaceLimitExceeded {
 		metrics.PodsEvicted.With(map[string]string{"result": "maximum number of pods per namespace reached", "strategy": opts.PluginName, "namespace": pod.Namespace, "node": nodeName}).Inc()
 		klog.ErrorS(fmt.Errorf("maximum number of evicted pods per namespace reached"), "Error evicting pod", "limit", *pe.maxPodsToEvictPerNamespace, "namespace", pod.Namespace)
 		return false
@@ -135,21 +181,12 @@ func (pe *PodEvictor) Evict(ctx context.Context, pod *corev1.Pod, opts framework
 	} else {
 		err := EvictPod(ctx, pe.client, pod, pe.policyGroupVersion, opts.DeleteOptions)
 		if err != nil {
+			pe.release(pod)
 			// err is used only for logging purposes
 			klog.ErrorS(err, "Error evicting pod", "pod", klog.KObj(pod), "reason", opts.Reason)
 			metrics.PodsEvicted.With(map[string]string{"result": "error", "strategy": opts.PluginName, "namespace": pod.Namespace, "node": nodeName}).Inc()
 			return false
 		}
-
-		func() {
-			pe.lock.Lock()
-			defer pe.lock.Unlock()
-			if pod.Spec.NodeName != "" {
-				pe.nodepodCount[pod.Spec.NodeName]++
-			}
-			pe.namespacePodCount[pod.Namespace]++
-			pe.totalCount++
-		}()
 
 		metrics.PodsEvicted.With(map[string]string{"result": "success", "strategy": opts.PluginName, "namespace": pod.Namespace, "node": nodeName}).Inc()
 
